@@ -205,4 +205,74 @@ def rule_c(ctx: Ctx) -> None:
                 'set_xmlns_context(obj, context.level).')
 
 
-RULES = [rule_a, rule_b, rule_c]
+LIVE_LIST_MUTATORS = {'append', 'pop', 'clear', 'extend', 'insert', 'remove'}
+
+
+def rule_d(ctx: Ctx) -> None:
+    """The ancestor chain that the element selectors update in place is remembered only through a copy: a local that merely
+    aliases the live list always compares equal to it, so the per-subtree identity counters are never reset."""
+    rule = 'C20.d'
+    idx = ctx.idx
+    res = idx.cls('xmlschema.resources.xml_resource.XMLResource')
+    # selectors whose parameter is updated in place while they are suspended at a yield
+    live_params = {}
+    for name, m in res.methods.items():
+        if isinstance(m.node, ast.Lambda) or not any(isinstance(x, (ast.Yield, ast.YieldFrom)) for x in walk_no_nested(m.node)):
+            continue
+        for p in m.params:
+            if p == 'self':
+                continue
+            if any(isinstance(c.func, ast.Attribute) and c.func.attr in LIVE_LIST_MUTATORS and text(c.func.value) == p
+                   for st in walk_no_nested(m.node) for c in (calls(st) if isinstance(st, ast.stmt) else [])):
+                live_params.setdefault(name, set()).add(p)
+    ctx.floor(rule, 'generator selectors of XMLResource that update a list argument in place', len(live_params), 2)
+    n = 0
+    for q in ('iter_errors', 'iter_decode', 'iter_encode'):
+        f = idx.method(SCHEMA, q)
+        ctx.analysed(f.qualname)
+        live = {}
+        for st in walk_no_nested(f.node):
+            if not isinstance(st, ast.stmt):
+                continue
+            for c in calls(st):
+                if isinstance(c.func, ast.Attribute) and c.func.attr in live_params:
+                    m = res.methods[c.func.attr]
+                    pos = [p for p in m.params if p != 'self']
+                    for i, a in enumerate(c.args):
+                        if i < len(pos) and pos[i] in live_params[c.func.attr] and isinstance(a, ast.Name):
+                            live[a.id] = c
+                    for kw in c.keywords:
+                        if kw.arg in live_params[c.func.attr] and isinstance(kw.value, ast.Name):
+                            live[kw.value.id] = c
+        for st in walk_no_nested(f.node):
+            if not isinstance(st, (ast.Assign, ast.AnnAssign)) or getattr(st, 'value', None) is None:
+                continue
+            v = st.value
+            while isinstance(v, ast.Call) and text(v.func) == 'cast' and len(v.args) == 2:
+                v = v.args[1]
+            tg = st.targets[0] if isinstance(st, ast.Assign) else st.target
+            src = None
+            if isinstance(v, ast.Name) and v.id in live:
+                src, copied = v.id, False
+            elif isinstance(v, ast.Subscript) and isinstance(v.value, ast.Name) and v.value.id in live and isinstance(v.slice, ast.Slice):
+                src, copied = v.value.id, True
+            elif isinstance(v, ast.Call) and len(v.args) == 1 and isinstance(v.args[0], ast.Name) and v.args[0].id in live \
+                    and text(v.func) in ('list', 'tuple', 'copy', 'copy.copy'):
+                src, copied = v.args[0].id, True
+            elif isinstance(v, ast.Call) and isinstance(v.func, ast.Attribute) and v.func.attr == 'copy' and not v.args \
+                    and isinstance(v.func.value, ast.Name) and v.func.value.id in live:
+                src, copied = v.func.value.id, True
+            if src is None or not isinstance(tg, ast.Name):
+                continue
+            n += 1
+            ctx.ob(rule, f'{q}: `{text(tg)}` remembers the live list `{src}` (updated in place by resource.{live[src].func.attr}) through a copy',
+                   f.loc(st), copied,
+                   '' if copied else f'`{text(st)[:60]}` binds a second name to the very list the selector keeps mutating: `{text(tg)} != {src}` is '
+                   'never true again, the identity-constraint counters of a finished subtree are not reset and the part selected by a path '
+                   'reports other errors than the whole document', key=f'{q}|snapshot|{text(tg)}|{src}')
+    ctx.floor(rule, 'snapshots of a live ancestors list', n, 1)
+    ctx.explain('C20.d: parameters that the generator selectors of XMLResource mutate in place (append/pop/clear) are live lists; '
+                'in the schema drivers every local initialised from such a list must be a copy (slice, list(), .copy()).')
+
+
+RULES = [rule_a, rule_b, rule_c, rule_d]
